@@ -17,6 +17,23 @@ fn main() {
                 println!("{:?}", e);
             }
         }
-        _ => eprintln!("probe de|events"),
+        "reader" => match serde_saphyr::from_reader::<_, U>(std::io::Cursor::new(s.as_bytes())) {
+            Ok(v) => println!("{:?}", v),
+            Err(e) => println!("ERR {}", e),
+        },
+        "i32" => match serde_saphyr::from_str::<std::collections::BTreeMap<String, i32>>(&s) {
+            Ok(v) => println!("{:?}", v),
+            Err(e) => println!("ERR {}", e),
+        },
+        "maxdoc" => {
+            let n: usize = std::env::args().nth(2).and_then(|x| x.parse().ok()).unwrap_or(1);
+            let mut b = vcheck::opts::BudgetD::default_budget();
+            b.max_documents = n;
+            let o = vcheck::opts::DeOpts { budget: vcheck::opts::BudgetSel::Explicit(b), ..Default::default() };
+            println!("from_str:      {:?}", serde_saphyr::from_str_with_options::<U>(&s, o.build()).map_err(|e| e.without_snippet().to_string()));
+            println!("from_reader:   {:?}", serde_saphyr::from_reader_with_options::<_, U>(std::io::Cursor::new(s.as_bytes()), o.build()).map_err(|e| e.without_snippet().to_string()));
+            println!("from_multiple: {:?}", serde_saphyr::from_multiple_with_options::<U>(&s, o.build()).map_err(|e| e.without_snippet().to_string()));
+        }
+        _ => eprintln!("probe de|events|reader|i32|maxdoc"),
     }
 }
